@@ -31,7 +31,13 @@ RULE = ("state type in {positive, complex, mixed} x nv 1..3 (thorough 1..4) x nh
         "state, vector for a mixed state); `space` as a row permutation of the basis with the target in that ordering (fidelity, "
         "KL(bases=None), NLL); bases lists with repeated entries; per state a same-object history (all metrics evaluated, then a tiny "
         "fit or an in-place parameter change, then the metrics and MetricEvaluator.on_epoch_end again); one peaked (|bias| 20..30) draw "
-        "per shape in every tier; a fixed seed-independent block of all these regimes runs first; a case is (fn, state, shape, parameter draw, call form, target/bases/samples); non-trivial := "
+        "per shape in every tier; the history step is a tiny fit, new tensors assigned to the parameters (`p.data = new`) or an in-place edit of the "
+        "existing parameter tensors THROUGH `.data` (copy_ / indexed assignment / zero_().add_(): neither storage pointer nor version counter of the "
+        "nn.Parameter changes); every second KL(bases=) / NLL(sample_bases=) call passes the bases POSITIONALLY (documented order nn_state, target|samples, "
+        "space, bases|sample_bases); per state two target-buffer histories (ONE target tensor and one dict of pre-rotated tensors whose content is replaced "
+        "in place between two rounds of fidelity / KL calls); complex and mixed states that carry their OWN unitary dictionary (X and/or Y random "
+        "unitaries, Z untouched; numpy oracle with the state's matrices; fixed ones first, then one full draw per type and size); states built through "
+        "the constructors' module= form with an RBM of the library; a fixed seed-independent block of all these regimes runs first; a case is (fn, state, shape, parameter draw, call form, target/bases/samples); non-trivial := "
         "non-real target or a basis containing Y or a mixed batch of bases")
 ASSUMPTIONS = [
     "np.linalg.eigvals returns the spectrum of its argument (mixed-state fidelity: eigenvalue oracle of the model)",
@@ -41,7 +47,13 @@ ASSUMPTIONS = [
     "the KL/NLL theorems cover probabilities in [2^-52, 1-2^-52] (plus exactly-zero target probabilities); basis-state / "
     "GHZ-like targets (probabilities exactly 0 or 1) are generated here and held to the numpy oracle (0 ln 0 = 0)",
     "states without a unitary dictionary (PositiveWaveFunction) rotate with create_dict() (/repo c22f10c); in the model X, Y, Z "
-    "always denote the default matrices",
+    "always denote the default matrices: for states that carry their own dictionary (X / Y overridden) the rotated-basis KL / NLL values are "
+    "held to the numpy oracle only (dense Kronecker products of the STATE's matrices), the model is not asked",
+    "OUT of scope (red team 2, C10_5): states whose parameters take part in autograd (requires_grad=True). Every documented way of building a state "
+    "(constructors, module= with an RBM of the library, load / autoload) yields requires_grad=False parameters; requires_grad=True needs the user "
+    "to replace the nn.Parameters of a live library module (setattr) or to subclass the RBM, which the property does not mention. States built "
+    "through module= from the library's own RBM classes ARE exercised",
+    "the Z entry of a state's own dictionary is never overridden here (open finding F-C04-z-override belongs to C04)",
 ]
 
 LET = {"X": 0, "Y": 1, "Z": 2}
@@ -53,21 +65,39 @@ PMIN = 1e-14          # probs_to_logits clamps below 2.2e-16: the oracle is skip
 
 
 # ------------------------------------------------------------------ numpy oracle
-def dense_U(basis):
+def dense_U(basis, u1=None):
+    """dense Kronecker product of the per-site matrices; u1: the STATE's dictionary (letter -> 2x2), default matrices if None"""
+    u1 = u1 or U1
     U = np.ones((1, 1), dtype=complex)
     for ch in basis:
-        U = np.kron(U, U1[ch])
+        U = np.kron(U, u1[ch])
     return U
 
 
-def born_pure(vec, basis):
-    v = dense_U(basis) @ vec
+def born_pure(vec, basis, u1=None):
+    v = dense_U(basis, u1) @ vec
     return np.abs(v) ** 2 / np.sum(np.abs(vec) ** 2)
 
 
-def born_mixed(mat, basis):
-    U = dense_U(basis)
+def born_mixed(mat, basis, u1=None):
+    U = dense_U(basis, u1)
     return np.real(np.diag(U @ mat @ U.conj().T)) / np.real(np.trace(mat))
+
+
+def rand_unitary(rng):
+    q, r = np.linalg.qr(rng.normal(size=(2, 2)) + 1j * rng.normal(size=(2, 2)))
+    return q * (np.diag(r) / np.abs(np.diag(r)))
+
+
+def u1_of(case):
+    """letter -> 2x2 matrix of the state's dictionary: the defaults, X and/or Y replaced when the case carries `udict`"""
+    ud = case.get("udict")
+    if not ud:
+        return None
+    u1 = dict(U1)
+    for k, v in ud.items():
+        u1[k] = de_c(v)
+    return u1
 
 
 def kl_div(t, q):
@@ -127,7 +157,14 @@ def is_plain_number(r):
 
 
 # ------------------------------------------------------------------ states
-def new_state_case(ctx, kind, nv, nh, na, large_bias=False):
+def new_state_case(ctx, kind, nv, nh, na, large_bias=False, udict=False, via_module=False):
+    extra = {}
+    if udict and kind != "positive":
+        # the state's own dictionary: X and / or Y are random unitaries (Z untouched: it is the reference basis throughout)
+        which = [["X", "Y"], ["X"], ["Y"]][int(ctx.rng.integers(3))]
+        extra["udict"] = {k: ser_c(rand_unitary(ctx.rng)) for k in which}
+    if via_module:
+        extra["via_module"] = True
     if kind == "positive":
         s, am = gen.make_positive(ctx, nv, nh); ph = None
     elif kind == "complex":
@@ -139,8 +176,8 @@ def new_state_case(ctx, kind, nv, nh, na, large_bias=False):
         # peaked state: one visible bias of magnitude 20..30 -> Born probabilities down to ~1e-13 (still far above the clamp)
         vb = am[2] if kind == "mixed" else am[1]
         vb[int(ctx.rng.integers(nv))] = float(ctx.rng.choice([-1.0, 1.0]) * ctx.rng.uniform(20.0, 30.0))
-    return {"state": kind, "nv": nv, "nh": nh, "na": na if kind == "mixed" else None, "large_bias": bool(large_bias),
-            "am": am, "ph": gen.plist(*ph) if ph is not None else None}
+    return dict({"state": kind, "nv": nv, "nh": nh, "na": na if kind == "mixed" else None, "large_bias": bool(large_bias),
+                 "am": am, "ph": gen.plist(*ph) if ph is not None else None}, **extra)
 
 
 def set_params(s, case):
@@ -153,6 +190,32 @@ def set_params(s, case):
         gen.set_brbm(s.rbm_am, *am)
         if ph is not None:
             gen.set_brbm(s.rbm_ph, *ph)
+
+
+def set_params_inplace(s, case, rng=None):
+    """the same, but THROUGH `.data` of the existing parameter tensors (p.data.copy_(new), p.data[...] = new, p.data.zero_().add_(new)):
+    neither the storage pointer nor the version counter of the nn.Parameter changes"""
+    import torch
+    am = [np.array(x, dtype=float) for x in case["am"]]
+    ph = [np.array(x, dtype=float) for x in case["ph"]] if case.get("ph") else None
+    names = ["weights_W", "weights_U", "visible_bias", "hidden_bias", "aux_bias"] if case["state"] == "mixed" else ["weights", "visible_bias", "hidden_bias"]
+    k = 0
+    for rbm, vals in ((s.rbm_am, am),) + (((s.rbm_ph, ph),) if ph is not None else ()):
+        for name, v in zip(names, vals):
+            p = getattr(rbm, name)
+            new = torch.tensor(v, dtype=torch.double)
+            how = int(rng.integers(3)) if rng is not None else k % 3
+            k += 1
+            if how == 0:
+                p.data.copy_(new)
+            elif how == 1:
+                p.data[...] = new
+            else:
+                p.data.zero_().add_(new)
+
+
+def apply_params(s, case, rng=None):
+    (set_params_inplace(s, case, rng) if case.get("history") == "inplace" else set_params(s, case))
 
 
 def read_params(s, kind):
@@ -189,9 +252,9 @@ def make_tab(case):
     if case.get("prev"):
         old = build_state(dict(case, am=case["prev"]["am"], ph=case["prev"]["ph"]))
         warm_up(old, case["state"])
-        set_params(old, case)
-        return Tab(fresh, case["state"], s_call=old)
-    return Tab(fresh, case["state"])
+        apply_params(old, case)
+        return Tab(fresh, case["state"], s_call=old, u1=u1_of(case))
+    return Tab(fresh, case["state"], u1=u1_of(case))
 
 
 def build_state(case):
@@ -199,20 +262,41 @@ def build_state(case):
     kind, nv, nh = case["state"], case["nv"], case["nh"]
     am = [np.array(x, dtype=float) for x in case["am"]]
     ph = [np.array(x, dtype=float) for x in case["ph"]] if case.get("ph") else None
-    if kind == "positive":
-        s = PositiveWaveFunction(nv, nh, gpu=False); gen.set_brbm(s.rbm_am, *am)
+    kw = {}
+    if case.get("udict") and kind != "positive":
+        from qucumber.utils import unitaries
+        kw["unitary_dict"] = unitaries.create_dict(**{k: c2t(de_c(v)) for k, v in case["udict"].items()})
+    if case.get("via_module"):
+        # the documented module= form of the constructors, with an RBM of the library (its parameters as the library creates them)
+        from qucumber.rbm import BinaryRBM, PurificationRBM
+        mod = PurificationRBM(nv, nh, case["na"], gpu=False) if kind == "mixed" else BinaryRBM(nv, nh, gpu=False)
+        if kind == "positive":
+            s = PositiveWaveFunction(nv, gpu=False, module=mod)
+        elif kind == "complex":
+            s = ComplexWaveFunction(nv, gpu=False, module=mod, **kw)
+        else:
+            s = DensityMatrix(nv, gpu=False, module=mod, **kw)
+    elif kind == "positive":
+        s = PositiveWaveFunction(nv, nh, gpu=False)
     elif kind == "complex":
-        s = ComplexWaveFunction(nv, nh, gpu=False); gen.set_brbm(s.rbm_am, *am); gen.set_brbm(s.rbm_ph, *ph)
+        s = ComplexWaveFunction(nv, nh, gpu=False, **kw)
     else:
-        s = DensityMatrix(nv, nh, case["na"], gpu=False); gen.set_prbm(s.rbm_am, *am); gen.set_prbm(s.rbm_ph, *ph)
+        s = DensityMatrix(nv, nh, case["na"], gpu=False, **kw)
+    if kind == "positive":
+        gen.set_brbm(s.rbm_am, *am)
+    elif kind == "complex":
+        gen.set_brbm(s.rbm_am, *am); gen.set_brbm(s.rbm_ph, *ph)
+    else:
+        gen.set_prbm(s.rbm_am, *am); gen.set_prbm(s.rbm_ph, *ph)
     return s
 
 
 class Tab:
     """state tables produced by the implementation (inputs of the metric-layer model and of the oracle)"""
 
-    def __init__(self, s, kind, s_call=None):
+    def __init__(self, s, kind, s_call=None, u1=None):
         self.s, self.kind = (s_call if s_call is not None else s), kind        # self.s: the object the metrics are called on
+        self.u1 = u1                                                            # the state's dictionary (None: the default matrices)
         self.mixed = (kind == "mixed")
         self.space = s.generate_hilbert_space()
         self.sp = self.space.numpy()
@@ -229,15 +313,15 @@ class Tab:
         return wire_c(self.rho if self.mixed else self.psi)
 
     def born(self, basis):
-        return born_mixed(self.rho, basis) if self.mixed else born_pure(self.psi, basis)
+        return born_mixed(self.rho, basis, self.u1) if self.mixed else born_pure(self.psi, basis, self.u1)
 
     def well_conditioned(self):
         p = self.pr / self.pr.sum()
         return bool(np.all(np.isfinite(p)) and self.Z > 0 and np.isfinite(self.Z))
 
 
-def born_target(tmixed, target, basis):
-    return born_mixed(target, basis) if tmixed else born_pure(target, basis)
+def born_target(tmixed, target, basis, u1=None):
+    return born_mixed(target, basis, u1) if tmixed else born_pure(target, basis, u1)
 
 
 def permuted(a, perm):
@@ -370,9 +454,9 @@ def run_kl(ctx, case, tab):
     if form in ("dict", "dict+bases"):
         keys = case["dict_keys"]
         if tab.mixed:
-            rot = {b: dense_U(b) @ t @ dense_U(b).conj().T for b in keys}
+            rot = {b: dense_U(b, tab.u1) @ t @ dense_U(b, tab.u1).conj().T for b in keys}
         else:
-            rot = {b: dense_U(b) @ t for b in keys}
+            rot = {b: dense_U(b, tab.u1) @ t for b in keys}
         target_arg = {b: c2t(rot[b]) for b in keys}
         call_bases = bases if form == "dict+bases" else None
         eff_bases = bases if form == "dict+bases" else keys
@@ -386,7 +470,10 @@ def run_kl(ctx, case, tab):
     elif call_bases is not None and cont == "ndarray":
         call_bases = np.array(call_bases)
     kw = case.get("target_kw", "positional")
-    if kw == "positional":
+    if kw == "positional" and case.get("bases_pos"):
+        # the documented positional order KL(nn_state, target, space, bases)
+        ok, K = ctx.call("KL", case, lambda: ts.KL(s, target_arg, space, call_bases))
+    elif kw == "positional":
         ok, K = ctx.call("KL", case, lambda: ts.KL(s, target_arg, space, bases=call_bases))
     else:
         ok, K = ctx.call("KL", case, lambda: ts.KL(s, space=space, bases=call_bases, **{kw: target_arg}))
@@ -396,10 +483,13 @@ def run_kl(ctx, case, tab):
     K = float(K)
     # ---- model
     sp = tab.sp
+    r = None
     if eff_bases is None:
         spm = sp[perm] if perm else sp
         tm = permuted(t, perm) if perm else t
         r = m.call("c10_kl_none_mixed" if tmixed else "c10_kl_none_pure", wire_c(tm), tab.pr, tab.Z, spm)
+    elif tab.u1 is not None:
+        ctx.count("model_not_asked:state with its own dictionary (the model's X, Y are the default matrices)")
     else:
         wb = wire_bases(eff_bases)
         if form in ("dict", "dict+bases"):
@@ -410,12 +500,13 @@ def run_kl(ctx, case, tab):
             r = m.call("c10_kl_bases_mixed", mode, tw, kw, tab.tab_wire(), tab.Z, sp, wb)
         else:
             r = m.call("c10_kl_bases_pure", mode, tw, kw, tab.tab_wire(), tab.Z, wb)
-    ctx.agree("KL vs model", K, r[0], case, rtol=1e-7, atol=1e-9)
-    ctx.agree_exact("KL result kind", 0 if is_plain_number(K) else 1, int(r[1]), case)
+    if r is not None:
+        ctx.agree("KL vs model", K, r[0], case, rtol=1e-7, atol=1e-9)
+        ctx.agree_exact("KL result kind", 0 if is_plain_number(K) else 1, int(r[1]), case)
     # ---- oracle
     obases = eff_bases if eff_bases is not None else ["Z" * nv]
     qs = [tab.born(b) for b in obases]
-    tsb = [born_target(tmixed, t, b) for b in obases]
+    tsb = [born_target(tmixed, t, b, tab.u1) for b in obases]
     if min(float(q.min()) for q in qs) < PMIN:
         ctx.count("oracle_skipped_clamp:KL")
         return
@@ -444,21 +535,29 @@ def run_nll(ctx, case, tab):
         ok, L = ctx.call("NLL", case, lambda: ts.NLL(s, samples, space))
     else:
         sba = np.array([list(b) for b in sb])
-        ok, L = ctx.call("NLL", case, lambda: ts.NLL(s, samples, space, sample_bases=sba))
+        if case.get("sb_pos"):
+            # the documented positional order NLL(nn_state, samples, space, sample_bases)
+            ok, L = ctx.call("NLL", case, lambda: ts.NLL(s, samples, space, sba))
+        else:
+            ok, L = ctx.call("NLL", case, lambda: ts.NLL(s, samples, space, sample_bases=sba))
     if not ok:
         return
     ctx.require("NLL returns a plain number", is_plain_number(L), case, type(L).__name__)
     L = float(L)
+    r = None
     if sb is None:
         r = m.call("c10_nll_plain", tab.pr, tab.Z, samples_l)
+    elif tab.u1 is not None:
+        ctx.count("model_not_asked:state with its own dictionary (the model's X, Y are the default matrices)")
     else:
         r = m.call("c10_nll_bases", 1 if tab.mixed else 0, tab.tab_wire(), tab.pr, tab.Z, wire_bases(sb), samples_l)
         # any grouping: the unique rows in numpy's sorted order and in reversed order give the same value
         ub = sorted(set(sb))
         r2 = m.call("c10_nll_bases_ub", 1 if tab.mixed else 0, tab.tab_wire(), tab.pr, tab.Z, wire_bases(ub[::-1]), wire_bases(sb), samples_l)
         ctx.agree("NLL vs model (other order of the unique bases)", L, r2[0], case, rtol=1e-7, atol=1e-9)
-    ctx.agree("NLL vs model", L, r[0], case, rtol=1e-7, atol=1e-9)
-    ctx.agree_exact("NLL result kind", 0 if is_plain_number(L) else 1, int(r[1]), case)
+    if r is not None:
+        ctx.agree("NLL vs model", L, r[0], case, rtol=1e-7, atol=1e-9)
+        ctx.agree_exact("NLL result kind", 0 if is_plain_number(L) else 1, int(r[1]), case)
     # ---- oracle: every sample in its own basis
     nv = case["nv"]
     idx = [int("".join(str(int(x)) for x in row), 2) for row in samples_l]
@@ -515,11 +614,11 @@ def oracle_values(tab, t, bases, samples_l, sb, nv):
     K = None
     if min(float(q.min()) for q in qs) >= PMIN:
         scale = max(1.0, max(float(np.max(np.abs(np.log(q)))) for q in qs))
-        K = (float(np.mean([kl_div(born_target(tab.mixed, t, b), q) for b, q in zip(bases, qs)])), 1e-9 * scale)
+        K = (float(np.mean([kl_div(born_target(tab.mixed, t, b, tab.u1), q) for b, q in zip(bases, qs)])), 1e-9 * scale)
     idx = [int("".join(str(int(x)) for x in row), 2) for row in samples_l]
     ps = [float(tab.born(sb[i])[k]) for i, k in enumerate(idx)]
     L = None
-    if min(ps) >= PMIN:
+    if ps and min(ps) >= PMIN:
         w = -float(np.mean(np.log(ps)))
         L = (w, 1e-9 * max(1.0, abs(w)))
     return {"F": F, "KL": K, "NLL": L}
@@ -533,7 +632,7 @@ def run_evaluator_history(ctx, case, tab):
     from qucumber.callbacks import MetricEvaluator
     kind, nv = case["state"], case["nv"]
     prev = dict(case, am=case["prev"]["am"], ph=case["prev"]["ph"])
-    tabs = [Tab(build_state(prev), kind), Tab(build_state(case), kind)]          # fresh objects: tables for the oracle
+    tabs = [Tab(build_state(prev), kind, u1=u1_of(case)), Tab(build_state(case), kind, u1=u1_of(case))]   # fresh objects: tables for the oracle
     t_np = de_c(case["target"])
     t = c2t(t_np)
     samples = torch.tensor(case["samples"], dtype=torch.double)
@@ -546,7 +645,7 @@ def run_evaluator_history(ctx, case, tab):
         me = MetricEvaluator(1, {"F": ts.fidelity, "KL": ts.KL, "NLL": ts.NLL}, target=t, bases=bases, space=tabs[0].space,
                              samples=samples, sample_bases=sba)
         me.on_epoch_end(s, 1)
-        set_params(s, case)
+        apply_params(s, case)
         me.on_epoch_end(s, 2)
         return [dict(v) for _, v in me.past_values]
     ok, recs = ctx.call("MetricEvaluator history", case, go)
@@ -565,8 +664,52 @@ def run_evaluator_history(ctx, case, tab):
                         {"epoch": ep, "metric": name, "recorded": repr(rec[name]), "oracle": w})
 
 
+# ------------------------------------------------------------------ history on ONE target tensor
+def run_target_history(ctx, case, tab):
+    """The target lives in ONE tensor (and one dict of pre-rotated tensors) whose content is replaced in place between two
+    rounds of metric calls (a preallocated buffer; scanning reference states): every value must be the metric of the content
+    the tensor holds AT THE TIME OF THE CALL."""
+    import torch
+    from qucumber.utils import training_statistics as ts
+    s, nv, bases = tab.s, case["nv"], case["bases"]
+    contents = [de_c(case["target"]), tab.own.copy() if case.get("target2_form", "self") == "self" else de_c(case["target2"])]
+    if case.get("swap_order"):
+        contents = contents[::-1]
+
+    def rotated(t, b):
+        U = dense_U(b, tab.u1)
+        return U @ t @ U.conj().T if tab.mixed else U @ t
+    buf = c2t(contents[0])
+    bufd = {b: c2t(rotated(contents[0], b)) for b in bases}
+    calls = [("fidelity(target buffer)", "F", lambda: ts.fidelity(s, buf, tab.space)),
+             ("KL(target buffer)", "KLnone", lambda: ts.KL(s, buf, tab.space)),
+             ("KL(target buffer, bases)", "KL", lambda: ts.KL(s, buf, tab.space, bases=bases)),
+             ("KL(dict of pre-rotated target buffers, bases)", "KL", lambda: ts.KL(s, bufd, tab.space, bases=bases))]
+    for rnd, t in enumerate(contents):
+        if rnd > 0:
+            buf.copy_(c2t(t))                                   # same tensor objects, new content
+            for b in bases:
+                bufd[b].copy_(c2t(rotated(t, b)))
+        want = oracle_values(tab, t, bases, [], [], nv)
+        q0 = tab.born("Z" * nv)
+        want["KLnone"] = None
+        if float(q0.min()) >= PMIN:
+            want["KLnone"] = (kl_div(born_target(tab.mixed, t, "Z" * nv, tab.u1), q0), 1e-9 * max(1.0, float(np.max(np.abs(np.log(q0))))))
+        for name, key, fn in calls:
+            ok, val = ctx.call(name, case, fn)
+            if not ok:
+                continue
+            if want[key] is None:
+                ctx.count("oracle_skipped_clamp:target_history")
+                continue
+            w, tol = want[key]
+            ctx.require("metric of a target tensor == metric of the content it holds at the time of the call (content replaced in place between calls)",
+                        is_plain_number(val) and abs(float(val) - w) <= tol + 1e-9 * abs(w), case,
+                        {"call": name, "round": rnd + 1, "impl": repr(val), "oracle": w})
+
+
 RUNNERS = {"fidelity": run_fidelity, "KL": run_kl, "NLL": run_nll, "evaluator": run_evaluator,
-           "evaluator_history": run_evaluator_history}
+           "evaluator_history": run_evaluator_history, "target_history": run_target_history}
 
 
 def run_case(ctx, case, tab=None):
@@ -601,7 +744,28 @@ def target_forms(tab, thorough, rng):
     return ["self", "real", "basis", "ghz", "complex", "complex"]
 
 
+def rotate_call_forms(cases):
+    """every second KL call with bases= and every second NLL call with sample_bases= passes them POSITIONALLY, in the documented
+    order KL(nn_state, target, space, bases) / NLL(nn_state, samples, space, sample_bases)"""
+    k = j = 0
+    for c in cases:
+        if c["fn"] == "KL" and c.get("bases") is not None and c.get("bases_form") in ("list", "dict+bases"):
+            k += 1
+            if k % 2:
+                c["bases_pos"] = True
+                c["target_kw"] = "positional"
+        if c["fn"] == "NLL" and c.get("sample_bases"):
+            j += 1
+            if j % 2:
+                c["sb_pos"] = True
+        yield c
+
+
 def cases_for_state(ctx, base, tab, lite=False):
+    return rotate_call_forms(_cases_for_state(ctx, base, tab, lite))
+
+
+def _cases_for_state(ctx, base, tab, lite=False):
     """yield the cases (dicts) exercised on one state (lite: only the fixed-first block)"""
     rng = ctx.rng
     nv = base["nv"]
@@ -657,6 +821,13 @@ def cases_for_state(ctx, base, tab, lite=False):
                            "bases": repeated(rand_bases(ctx, nv, int(rng.integers(1, 4)), force_y=True))}, form)
     keys = rand_bases(ctx, nv, int(rng.integers(1, 4)), force_y=True)
     yield with_target({"fn": "KL", "bases_form": "dict+bases", "dict_keys": keys, "bases": repeated(keys), "repeated_bases": True}, rnd_form)
+    # (4) ONE target tensor (and one dict of pre-rotated tensors) whose content is replaced in place between two rounds of calls
+    c = with_target({"fn": "target_history", "bases": rand_bases(ctx, nv, 2, force_y=True), "target2_form": "self",
+                     "swap_order": bool(rng.random() < 0.5)}, rnd_form)
+    yield c
+    c = with_target({"fn": "target_history", "bases": rand_bases(ctx, nv, 2, force_y=True), "target2_form": "other"}, rnd_form)
+    c["target2"] = ser_c(rand_target(ctx, tab, rnd_form))
+    yield c
     if lite:
         return
 
@@ -696,6 +867,10 @@ def cases_for_state(ctx, base, tab, lite=False):
 
 
 def history_cases(ctx, base2, tab2):
+    return rotate_call_forms(_history_cases(ctx, base2, tab2))
+
+
+def _history_cases(ctx, base2, tab2):
     """cases run on an object whose parameters were changed after every metric had been evaluated on it"""
     rng = ctx.rng
     nv = base2["nv"]
@@ -720,11 +895,14 @@ def history_cases(ctx, base2, tab2):
     yield c
 
 
-def change_parameters(ctx, base, s_old):
-    """history step on the SAME object: a tiny fit, or new parameters written in place; returns the new case base"""
+def change_parameters(ctx, base, s_old, mode=None):
+    """history step on the SAME object: a tiny fit, new parameter tensors assigned (`p.data = new`), or the existing parameter
+    tensors edited in place through `.data` (mode 'inplace'); returns the new case base"""
     rng = ctx.rng
     kind, nv = base["state"], base["nv"]
-    mode = "fit" if rng.random() < 0.3 else "set"
+    if mode is None:
+        u = rng.random()
+        mode = "fit" if u < 0.3 else ("inplace" if u < 0.65 else "set")
     new = None
     if mode == "fit":
         try:
@@ -747,15 +925,19 @@ def change_parameters(ctx, base, s_old):
     if new is None:
         fresh = new_state_case(ctx, kind, nv, base["nh"], base["na"])
         new = dict(base, am=fresh["am"], ph=fresh["ph"])
-        set_params(s_old, new)
+        if mode == "inplace":
+            set_params_inplace(s_old, new, rng)
+        else:
+            set_params(s_old, new)
     new["prev"] = {"am": base["am"], "ph": base["ph"]}
     new["history"] = mode
-    new["large_bias"] = False if mode == "set" else base.get("large_bias", False)
+    new["large_bias"] = False if mode in ("set", "inplace") else base.get("large_bias", False)
     return new
 
 
 def nontrivial(case):
-    if case.get("prev") or case.get("space_perm") or case.get("cross_kind") or case.get("repeated_bases"):
+    if case.get("prev") or case.get("space_perm") or case.get("cross_kind") or case.get("repeated_bases") or case.get("udict") \
+            or case["fn"] == "target_history":
         return True
     if case["fn"] == "NLL":
         sb = case.get("sample_bases")
@@ -769,7 +951,11 @@ def nontrivial(case):
 
 def describe(case):
     d = {k: case.get(k) for k in ("fn", "state", "nv", "nh", "na", "target_form", "bases_form", "bases", "dict_keys", "sample_bases", "pass_space", "target_kw", "bases_container",
-                                     "space_perm", "cross_kind", "repeated_bases", "history", "large_bias")}
+                                     "space_perm", "cross_kind", "repeated_bases", "history", "large_bias", "bases_pos", "sb_pos", "via_module",
+                                     "target2_form", "swap_order")}
+    if case.get("udict"):
+        d["udict"] = sorted(case["udict"])
+        d["u00"] = [v["re"][0][0] for _, v in sorted(case["udict"].items())]
     d["am00"] = case["am"][0][0][0]
     if case.get("samples") is not None:
         d["n_samples"] = len(case["samples"])
@@ -794,9 +980,11 @@ def register(ctx, case, kind, nv):
     for key in ("bases_form", "target_form", "target_kw", "bases_container", "history"):
         if case.get(key):
             ctx.count(key + ":" + str(case[key]))
-    for key in ("space_perm", "cross_kind", "repeated_bases", "large_bias"):
+    for key in ("space_perm", "cross_kind", "repeated_bases", "large_bias", "bases_pos", "sb_pos", "via_module"):
         if case.get(key):
             ctx.count(key)
+    if case.get("udict"):
+        ctx.count("state dictionary overrides " + "+".join(sorted(case["udict"])))
     allb = (case.get("bases") or []) + (case.get("dict_keys") or []) + (case.get("sample_bases") or [])
     if kind == "positive" and any(ch != "Z" for b in allb for ch in b):
         ctx.count("positive_state_rotated_basis")
@@ -804,12 +992,12 @@ def register(ctx, case, kind, nv):
         ctx.count("has_Y")
 
 
-def one_state(ctx, kind, shape, large_bias=False, lite=False):
+def one_state(ctx, kind, shape, large_bias=False, lite=False, udict=False, via_module=False, history_mode=None):
     nv, nh = shape[0], shape[1]
     na = shape[2] if kind == "mixed" else None
     ctx.torch_seed()
-    base = new_state_case(ctx, kind, nv, nh, na, large_bias=large_bias)
-    ok, tab = ctx.call("state tables", base, lambda: Tab(build_state(base), kind))
+    base = new_state_case(ctx, kind, nv, nh, na, large_bias=large_bias, udict=udict, via_module=via_module)
+    ok, tab = ctx.call("state tables", base, lambda: Tab(build_state(base), kind, u1=u1_of(base)))
     if not ok:
         return
     if not tab.well_conditioned():
@@ -821,8 +1009,8 @@ def one_state(ctx, kind, shape, large_bias=False, lite=False):
     # ---- history on the SAME object: every metric has been evaluated on tab.s above; now its parameters change
     #      (tiny fit or in-place overwrite) and the metrics are asked again.  Tables for model/oracle: a fresh object.
     s_old = tab.s
-    base2 = change_parameters(ctx, base, s_old)
-    ok, tab2 = ctx.call("state tables", base2, lambda: Tab(build_state(base2), kind, s_call=s_old))
+    base2 = change_parameters(ctx, base, s_old, mode=history_mode)
+    ok, tab2 = ctx.call("state tables", base2, lambda: Tab(build_state(base2), kind, s_call=s_old, u1=u1_of(base2)))
     if not ok:
         return
     if not tab2.well_conditioned():
@@ -842,9 +1030,15 @@ def fixed_first(ctx):
     saved = ctx.rng
     ctx.rng = np.random.Generator(np.random.PCG64(20261001))
     try:
-        for kind, shape in FIXED_FIRST:
-            one_state(ctx, kind, shape, large_bias=False, lite=True)
-            one_state(ctx, kind, shape, large_bias=True, lite=True)
+        for k, (kind, shape) in enumerate(FIXED_FIRST):
+            # history step: in-place edit through `.data` on the first draw, `p.data = new` / tiny fit on the peaked one
+            one_state(ctx, kind, shape, large_bias=False, lite=True, history_mode="inplace")
+            one_state(ctx, kind, shape, large_bias=True, lite=True, history_mode=("set" if k % 2 else "fit"))
+        # states that carry their OWN unitary dictionary (X and / or Y random unitaries), and states built through module=
+        for kind, shape in (("complex", (2, 2)), ("mixed", (2, 2, 2)), ("complex", (3, 2)), ("mixed", (1, 2, 1))):
+            one_state(ctx, kind, shape, lite=True, udict=True, history_mode="inplace")
+        for kind, shape in (("positive", (2, 2)), ("complex", (2, 3)), ("mixed", (2, 2, 1))):
+            one_state(ctx, kind, shape, lite=True, via_module=True)
     finally:
         ctx.rng = saved
 
@@ -857,6 +1051,15 @@ def run(ctx):
             for _ in range(draws):
                 one_state(ctx, kind, shape)
             one_state(ctx, kind, shape, large_bias=True)          # peaked regime: one draw per shape in EVERY tier
+    # states with their own unitary dictionary: one full draw per non-positive type and size (thorough: every shape)
+    for kind, shs in shapes(ctx).items():
+        if kind == "positive":
+            continue
+        done = set()
+        for shape in shs:
+            if ctx.thorough or shape[0] not in done:
+                done.add(shape[0])
+                one_state(ctx, kind, shape, udict=True)
 
 
 def search(ctx, broken, budget):
